@@ -6,7 +6,7 @@ Generator
              patterns; every value of each aux field (3 x 15-bit index, tagged, 10-bit density)
              x 32 fillings of all other bits (all-zero, all-one, 30 pseudo-random).
     thorough the same plus ALL 2^32 RVint words, each in every one of the three columns, for float32
-             and for float64 (2 x 2048 chunks of 2^21 consecutive words).
+             and for float64 (2 x 1024 chunks of 2^22 consecutive words, decoded 2^18 words per call).
   Hypothesis:
     rvint     small word lists (boundary-biased) x BoxSize over decades (int / float / np.float32 /
               np.float64) x float32/float64 x input shape (N,3) or flat x posout/velout in
@@ -36,7 +36,7 @@ from vt.oracles import decoders as D
 
 ID = 'C04'
 RULE = (
-    'bulk descriptors enumerate bit sub-spaces completely (each bulk case = up to 3*2^21 word decodes); Hypothesis descriptors '
+    'bulk descriptors enumerate bit sub-spaces completely (each bulk case = up to 3*2^22 word decodes); Hypothesis descriptors '
     '(words, box, ppd, dtype, input shape, output modes / flag subsets, api). non-trivial = bulk case, or a word with a negative '
     'position field, or density code 1023, or a pid word with foreign (non-id) bits set, or any non-default output mode / flag '
     'subset, or a round-trip case; distinct = descriptor hash.'
@@ -56,7 +56,7 @@ FLAGS = ['pid', 'lagr_pos', 'tagged', 'density', 'lagr_idx']
 V12_PATTERNS = [0x000, 0xFFF, 0x800, 0x7FF, 0x555, 0xAAA, 0x001, 0x801]
 P20_PATTERNS = [0x00000, 0xFFFFF, 0x80000, 0x7FFFF, 0x55555, 0xAAAAA, 0x00001, 0x80001]
 BOXES = [2000.0, 1.0, 500.0, 7373.37, 1e-3, 296.0, 1e5, 1100.0]
-RANGE_CHUNK = 1 << 21
+RANGE_CHUNK = 1 << 22
 SENT = -7.25e30
 M = 4  # sentinel margin rows
 
@@ -318,16 +318,24 @@ def _rv_tables(box, dtype):
     return t
 
 
+BLOCK = 1 << 18  # words per call: keeps every temporary below glibc's mmap threshold and inside the cache
+
+
 def _check_rvint_bulk(u, box, dtype, what):
     """u: int64 array of 32-bit patterns (unsigned). Each word is presented in all three columns."""
+    for s in range(0, len(u), BLOCK):
+        _check_rvint_block(u[s : s + BLOCK], box, dtype, what)
+
+
+def _check_rvint_block(u, box, dtype, what):
     from abacusnbody.data import bitpacked
 
-    w = u.astype(np.uint32).view(np.int32)
-    n = len(w)
-    arr = np.empty((n, 3), dtype=np.int32)
-    arr[:, 0] = w
-    arr[:, 1] = np.roll(w, 1237)
-    arr[:, 2] = w[::-1]
+    n = len(u)
+    uu = np.empty((n, 3), dtype=np.int64)
+    uu[:, 0] = u
+    uu[:, 1] = np.roll(u, 1237 % max(n, 1))
+    uu[:, 2] = u[::-1]
+    arr = uu.astype(np.uint32).view(np.int32)
     keep = arr.copy()
     pos, vel = call_repo(bitpacked.unpack_rvint, arr, box, float_dtype=dtype)
     if not np.array_equal(arr, keep):
@@ -336,12 +344,9 @@ def _check_rvint_bulk(u, box, dtype, what):
         if not isinstance(a, np.ndarray) or a.shape != (n, 3) or a.dtype != np.dtype(dtype):
             raise Violation('rvint-shape', '%s: %s is %r' % (what, name, getattr(a, 'shape', a)))
     pt, ptol, vt, vtol = _rv_tables(box, dtype)
-    uu = np.empty((n, 3), dtype=np.int64)
-    uu[:, 0] = u
-    uu[:, 1] = np.roll(u, 1237)
-    uu[:, 2] = u[::-1]
-    hi = uu // 4096
-    lo = uu % 4096
+    # uu holds non-negative numbers < 2^32, so these are plain unsigned field extractions
+    hi = uu >> 12
+    lo = uu & 4095
     _cmp(pos, pt[hi], ptol[hi], 'rvint-pos-wrong', what + ' pos')
     _cmp(vel, vt[lo], vtol[lo], 'rvint-vel-wrong', what + ' vel')
     _counts['rvint_words_decoded'] += 3 * n
